@@ -58,6 +58,7 @@ func main() {
 	}
 	// everything lives in in-memory back ends (one fresh world per scenario): no scratch data on the OS file system
 	corpus(r)
+	keyScenarios(r)
 	sweepSeq(r)
 	otherScenarios(r)
 	r.Note("back end: afero MemMapFs behind strictFs (EISDIR / ENOENT like an OS file system); lock files look one hour old to the fresh clients of sequential scenarios (fabricated clock), real clocks in the gated scenarios")
